@@ -291,8 +291,10 @@ def run():
     t0 = time.time(); S.stream_parse(ck, model_ok); tm["parse"] = round(time.time() - t0, 1)
     t0 = time.time(); S.stream_sql_and_e2e(ck, model_ok, tm); tm["sql+e2e"] = round(time.time() - t0, 1)
     t0 = time.time(); S.stream_filter(ck, model_ok); tm["filter"] = round(time.time() - t0, 1)
+    t0 = time.time(); S.stream_filter(ck, model_ok, mode="join"); tm["join"] = round(time.time() - t0, 1)
     t0 = time.time(); S.stream_fstring(ck, model_ok); tm["fstring"] = round(time.time() - t0, 1)
     t0 = time.time(); S.stream_fncall(ck, model_ok, tinfo["stdsql"] if "error" not in tinfo["stdsql"] else None); tm["fncall"] = round(time.time() - t0, 1)
+    t0 = time.time(); S.stream_fncall_nested(ck, model_ok, tinfo["stdsql"] if "error" not in tinfo["stdsql"] else None); tm["fncall-nested"] = round(time.time() - t0, 1)
     t0 = time.time(); S.stream_directed(ck); tm["directed"] = round(time.time() - t0, 1)
     ck.coverage["seconds_by_phase"] = tm
     # most informative first (only the first 20 are printed): wrong VALUES, then text differences
